@@ -90,6 +90,15 @@ func runFoGeneric(b *Batch, prop string) {
 			}
 			b.R.Count("family.buffer_reuse", 1)
 		}
+		if prop == "C01" && i%10 == 3 {
+			c.NilValues = true // builders that legitimately return a nil / zero value (values are not judged by C01)
+			b.R.Count("family.nil_values", 1)
+		}
+		if prop == "C02" && i%12 == 5 {
+			c.Cfg.BareExpired = true // a third-party style backend: expiry without the stale item (allowed by the ErrExpired doc)
+			c.CfgS = c.Cfg.String()
+			b.R.Count("family.bare_expired_backend", 1)
+		}
 		if prop == "C02" && i%3 == 0 {
 			// fault enumeration: the same case is re-run with a backend failure injected at every call index in turn
 			c.FaultAt = -1
